@@ -47,7 +47,7 @@ XInit(t) ==
       flip |-> FALSE, flipBack |-> FALSE,
       dest |-> IF t.hasOld THEN "old" ELSE "absent", temps |-> 0,
       destBad |-> FALSE, tempsAtResult |-> 0, destAtResult |-> "",
-      srcRead |-> 0, partDone |-> 0, bigPart |-> FALSE, recv |-> 0, wrote |-> 0,
+      srcRead |-> 0, partDone |-> 0, partsHeld |-> 0, bigPart |-> FALSE, recv |-> 0, wrote |-> 0,
       hiPart |-> -1, finParts |-> {},
       ranges |-> {}, uids |-> {} ]
 
@@ -206,7 +206,12 @@ S3End(o0, ev) ==
                  !.x[i].objVia = IF applied /\ ev.op \in {"PutObject", "CopyObject", "CompleteMultipartUpload"}
                                  THEN ev.op ELSE @,
                  !.x[i].cplBad = IF ev.op = "CompleteMultipartUpload"
-                                 THEN @ \cup CplFlags(ev.parts, xr.size) \cup PlanFlags(ev.parts, xr.size, o3.cfg, xr.srck # "nonseekable" \/ xr.provide)
+                                 THEN @ \cup CplFlags(ev.parts, xr.size)
+                                        \* (a stream whose sized reads return short cannot be cut
+                                        \*  into planned parts: no planning requirement on it)
+                                        \cup (IF xr.shortsrc THEN {}
+                                              ELSE PlanFlags(ev.parts, xr.size, o3.cfg,
+                                                             xr.srck # "nonseekable" \/ xr.provide))
                                  ELSE @,
                  !.x[i].ranges = IF ev.op = "GetObject" /\ ok THEN @ \cup {<<ev.bs, ev.bl>>} ELSE @,
                  !.x[i].bigPart = @ \/ (ev.op \in {"UploadPart", "PutObject"} /\ xr.srck \in {"seekable", "nonseekable"}
@@ -389,6 +394,7 @@ BufferedUpload(o) ==
     LET RECURSIVE S(_)
         S(i) == IF i > Len(o.x) THEN 0
                 ELSE (IF o.x[i].kind = "upload" /\ o.x[i].srck \in {"seekable", "nonseekable"}
+                         /\ ~o.x[i].fatal /\ ~o.x[i].cancelReq
                       THEN Max(0, o.x[i].srcRead - o.x[i].partDone) ELSE 0) + S(i + 1)
     IN S(1)
 
@@ -397,7 +403,24 @@ SrcRead(o0, ev) ==
     IF ~Known(o0, ev.x) THEN o0 ELSE
     LET o1 == [o0 EXCEPT !.x[i].srcRead = @ + ev.len]
         bound == (o1.cfg.up_chunks + o1.cfg.S) * Max(o1.cfg.chunk, o1.cfg.threshold)
-    IN IF BufferedUpload(o1) > bound THEN [o1 EXCEPT !.memBad = @ \cup {"C11_UploadBuffers"}] ELSE o1
+        \* (once the transfer failed or was cancelled its part tasks are skipped and upload
+        \*  nothing: the bytes read no longer show up as uploaded, the held parts are then
+        \*  bounded by PartTask below)
+        live == ~o1.x[i].fatal /\ ~o1.x[i].cancelReq
+    IN IF live /\ BufferedUpload(o1) > bound THEN [o1 EXCEPT !.memBad = @ \cup {"C11_UploadBuffers"}] ELSE o1
+
+\* part tasks of a stream upload between their submission and their end: each holds a part
+\* body in memory and a slot of the in-memory-upload tag semaphore (at most up_chunks)
+PartTask(o0, ev) ==
+    LET i == ev.x + 1 IN
+    IF ~Known(o0, ev.x) THEN o0 ELSE
+    LET xr == o0.x[i] IN
+    IF ~(xr.kind = "upload" /\ xr.srck \in {"seekable", "nonseekable"}) THEN o0 ELSE
+    IF ev.ph = "s"
+    THEN LET o1 == [o0 EXCEPT !.x[i].partsHeld = @ + 1] IN
+         IF xr.partsHeld + 1 > o0.cfg.up_chunks
+         THEN [o1 EXCEPT !.memBad = @ \cup {"C11_UploadBuffers"}] ELSE o1
+    ELSE [o0 EXCEPT !.x[i].partsHeld = @ - 1]
 
 \* window check happens when a ranged GET begins
 WindowCheck(o) ==
@@ -432,6 +455,7 @@ Apply(o0, ev) ==
       [] ev.e = "ExecSubmit" -> ExecSubmit(o, ev)
       [] ev.e = "SrcRead" -> SrcRead(o, ev)
       [] ev.e = "IoTask" -> IoTask(o, ev)
+      [] ev.e = "PartTask" -> PartTask(o, ev)
       [] ev.e = "Stuck" -> [o EXCEPT !.stuck = ev.kind]
       [] ev.e = "End" -> End(o, ev)
       [] OTHER -> o
